@@ -97,7 +97,7 @@ def dynamic_jobs(tier, seed, prop):
                 jobs.append(rnd(("corpus_dict", "os_mix"), 1500, seed + 5, record_draws=True, extras=False,
                                 modes=((True, False, False),)))
     elif prop == "C09":
-        for n in ["os_mix", "chain", "fw_asym", "two_public", "unordered_chain", "twins"]:
+        for n in ["os_mix", "chain", "fw_asym", "two_public", "unordered_chain", "twins", "name_clash"]:
             jobs.append(exh(("corpus_dict", n)))
         jobs.append(exh(("corpus_yaml", "deny")))
         jobs.append(exh(("bench_yaml", "tiny")))
